@@ -362,6 +362,7 @@ def _recording_writer():
 
         class Rec(lua.LuaFormatterWriter):
             calls = None
+            link = None      # [(index of the token that follows a non-empty run, _indent passed with the run)]
 
             def _get_code_for_spaces(self, node):
                 start = self._pos
@@ -369,21 +370,54 @@ def _recording_writer():
                 run = b''.join(t.code for t in self._tokens[start:self._pos])
                 Rec.calls.add((start == 0, self._pos == len(self._tokens), self._indent_mult, self._indent,
                                bytes(run), bytes(res)))
+                if Rec.link is not None and self._pos > start and self._pos < len(self._tokens):
+                    Rec.link.append((self._pos, self._indent))
                 return res
         _REC['cls'] = Rec
     return _REC['cls']
 
 
-def luafmt(src, w, record=None):
-    """-> ('OK', bytes) | ('ERR', name)"""
+def _short_if_token_ranges(root):
+    """token index ranges [start_pos, end_pos) of the PICO-8 short-if statements of the implementation's tree"""
+    from pico8.lua import parser
+    out = []
+
+    def rec(v):
+        if isinstance(v, parser.Node):
+            if getattr(v, 'short_if', False):
+                out.append((v.start_pos, v.end_pos))
+            for f in v._fields:
+                rec(getattr(v, f))
+        elif isinstance(v, (list, tuple)):
+            for x in v:
+                rec(x)
+    rec(root)
+    return out
+
+
+def luafmt(src, w, record=None, link=None):
+    """-> ('OK', bytes) | ('ERR', name).  link: list that receives (byte offset in src of a code token that
+    follows a non-empty white-space run, the writer's _indent at that run)"""
     from pico8.lua import lua
     cls = lua.LuaFormatterWriter
     if record is not None:
         cls = _recording_writer()
         cls.calls = record
+        cls.link = [] if link is not None else None
     try:
         l = lua.Lua.from_lines([src], version=8)
-        return 'OK', b''.join(l.to_lines(writer_cls=cls, writer_args={'indentwidth': w}))
+        out = b''.join(l.to_lines(writer_cls=cls, writer_args={'indentwidth': w}))
+        if link is not None and record is not None:
+            starts = [0]
+            for k, ch in enumerate(src):
+                if ch == 10:
+                    starts.append(k + 1)
+            short = _short_if_token_ranges(l.root)
+            for idx, ind in cls.link:
+                t = l.tokens[idx]
+                if t._lineno is not None and t._lineno < len(starts):
+                    link.append((starts[t._lineno] + t._charno, ind, any(a <= idx < b for a, b in short)))
+        return 'OK', out
     except RecursionError:
         return 'ERR', 'RecursionError'
     except Exception as e:  # noqa
@@ -457,8 +491,9 @@ def run_impl(case):
     w = case['w']
     srcs = [bytes.fromhex(h) for h in case['srcs']]
     calls = set()
-    outs = [luafmt(s, w, record=calls) for s in srcs]
-    obs = {'outs': outs, 'again': None, 'calls': calls}
+    link = []
+    outs = [luafmt(s, w, record=calls, link=(link if k == 0 else None)) for k, s in enumerate(srcs)]
+    obs = {'outs': outs, 'again': None, 'calls': calls, 'link': link}
     if outs[0][0] == 'OK':
         obs['again'] = luafmt(outs[0][1], w, record=calls)
     return obs
@@ -692,6 +727,26 @@ def run_cases(cases, ctx):
                 violations.append({'case': c, 'summary': describe(c, o), 'signature': signature_of(code, c, o, k),
                                    'what': what_of(code, c, o, k), '_k': k,
                                    'observed': ['verdict %d: %s' % (code, ', '.join(clause_names(code)))]})
+    # ---- informative: the writer's _indent against the reference depth at every token that follows a run
+    if ctx.get('monitor_exe'):
+        reqs, owners = [], []
+        for c, o in zip(cases, obs):
+            if c['kind'] == 'prog' and o['outs'][0][0] == 'OK' and o.get('link'):
+                reqs.append('link %s %s' % (c['srcs'][0], ','.join('%d:%d' % (p[0], p[1]) for p in sorted(set(o['link'])))))
+                owners.append((c, o))
+        ans = lib.run_driver_parallel(ctx['monitor_exe'], reqs) if reqs else []
+        for (c, o), a in zip(owners, ans):
+            n = len(set(o['link']))
+            if a == 'NONE' or a.startswith('DRIVER'):
+                bump('link:no-claim')
+                continue
+            bad = [] if a == '-' else [int(x) for x in a.split(',')]
+            bump('link:tokens-compared', n)
+            bump('link:indent-equals-reference-depth', n - len(bad))
+            src = bytes.fromhex(c['srcs'][0])
+            in_short = {p[0] for p in o['link'] if p[2]}
+            for off in bad:
+                bump('link:mismatch:' + ('inside-a-short-if' if off in in_short else _classify_link_mismatch(src, off)))
     # minimise the smallest witness of each signature (at most 4 signatures, 12 s each)
     if violations and ctx.get('monitor_exe') and ctx.get('tier') != 'replay':
         best = {}
@@ -715,6 +770,18 @@ def run_cases(cases, ctx):
             'disagreements': disagreements, 'violations': violations, 'histogram': hist,
             'impl_seconds': round(t_impl, 2),
             'exhaustive': any(c['kind'] == 'runs' for c in cases)}
+
+
+def _classify_link_mismatch(src, off):
+    """why the writer's _indent differs from the reference depth at the token at `off` (never a line start in
+    the layouts generated here, so not observable in the output)"""
+    import re
+    rest = src[off:off + 40]
+    rest = src[off:off + 200]
+    if re.match(rb'[,;]\s*(--\[\[.*?\]\]\s*|--[^\n]*\n\s*|//[^\n]*\n\s*)*\}', rest, re.S):
+        # _walk_TableConstructor decrements _indent before the trailing field separator
+        return 'trailing-field-separator'
+    return 'UNEXPLAINED at %r' % rest.split()[0][:8].decode('latin-1')
 
 
 def coq_shard(cases, obs, n, seed):
